@@ -533,13 +533,20 @@ func runNode(t *testing.T, evs []nev) (string, map[string]any) {
 	for _, e := range evs {
 		switch e.Kind {
 		case "start":
-			s, ok := sessions[e.Sess]
-			if !ok {
-				s = req.Exchange.NewSession(ctx)
-				sessions[e.Sess] = s
-			}
 			rctx, cancel := context.WithCancel(ctx)
-			ch, err := s.GetBlocks(rctx, u.cids(e.Keys))
+			var ch <-chan blocks.Block
+			var err error
+			if e.Sess >= 10 {
+				// a session of its own: Exchange.GetBlocks creates it and ends it with the request
+				ch, err = req.Exchange.GetBlocks(rctx, u.cids(e.Keys))
+			} else {
+				s, ok := sessions[e.Sess]
+				if !ok {
+					s = req.Exchange.NewSession(ctx)
+					sessions[e.Sess] = s
+				}
+				ch, err = s.GetBlocks(rctx, u.cids(e.Keys))
+			}
 			if err != nil {
 				t.Fatal(err)
 			}
@@ -614,7 +621,11 @@ func genNode(e *vh.Env) []nev {
 			for j := range keys {
 				keys[j] = r.Intn(5)
 			}
-			evs = append(evs, nev{Kind: "start", Sess: r.Intn(2), Keys: keys})
+			sess := r.Intn(2)
+			if r.Intn(3) == 0 {
+				sess = 10 + nreq // Exchange.GetBlocks: a session of its own
+			}
+			evs = append(evs, nev{Kind: "start", Sess: sess, Keys: keys})
 			nreq++
 		case x < 7:
 			evs = append(evs, nev{Kind: "block", K: r.Intn(5)})
@@ -926,6 +937,8 @@ func TestC37(t *testing.T) {
 		{{Kind: "block", K: 1}, {Kind: "start", Sess: 0, Keys: []int{1, 1, 2}}, {Kind: "block", K: 2}, {Kind: "start", Sess: 0, Keys: []int{2}}},
 		// cancel with nothing received
 		{{Kind: "start", Sess: 0, Keys: []int{4}}, {Kind: "cancel", K: 0}, {Kind: "block", K: 4}},
+		// Exchange.GetBlocks (a session of its own): cancellation and completion both clean up
+		{{Kind: "start", Sess: 10, Keys: []int{1, 2}}, {Kind: "start", Sess: 11, Keys: []int{2, 3}}, {Kind: "cancel", K: 0}, {Kind: "block", K: 2}, {Kind: "block", K: 3}},
 	}
 	for i, evs := range nodeCorpus {
 		term, rp := runNode(t, evs)
